@@ -71,6 +71,9 @@ var wants = []want{
 	{"pkg/blobserver/diskpacked/diskpacked.go", "gecmp:Size:size", "ReceiveBlob", "dp_dup_checks_extent_end"},
 	// encrypt ReceiveBlob: is the meta blob recorded (first recordMeta, right after it was written) before the index row is set (first Set)?
 	{"pkg/blobserver/encrypt/encrypt.go", "callorder:recordMeta<Set", "ReceiveBlob", "enc_meta_before_index"},
+	// C14 (D50): overlay's two two-step writers take the store's mutex
+	{"pkg/blobserver/overlay/overlay.go", "selcalls:Lock", "ReceiveBlob", "overlay_receive_serialized"},
+	{"pkg/blobserver/overlay/overlay.go", "selcalls:Lock", "RemoveBlobs", "overlay_remove_serialized"},
 	// blobpacked: does RemoveBlobs hand the loose store every blob it was given (and not only those without a meta row)?
 	{"pkg/blobserver/blobpacked/blobpacked.go", "removeall:small", "RemoveBlobs", "bp_remove_loose_of_all"},
 	// every handler type registered anywhere under pkg/ (first argument of blobserver.RegisterHandlerConstructor)
@@ -651,7 +654,7 @@ func main() {
 				return true
 			})
 			fmt.Fprintf(&b, "Definition %s : bool := %v.\n", w.coqName, found && good)
-		case "selcalls:ByteParts", "selcalls:DirectoryEntries", "selcalls:StaticSetMembers", "selcalls:StaticSetMergeSets", "selcalls:Stat":
+		case "selcalls:ByteParts", "selcalls:DirectoryEntries", "selcalls:StaticSetMembers", "selcalls:StaticSetMergeSets", "selcalls:Stat", "selcalls:Lock":
 			fd, ok := fi.funcs[w.goName]
 			if !ok {
 				fail(fmt.Errorf("func not found"))
